@@ -199,6 +199,11 @@ REWRITES = {
     "to_uppercase_of": (r"\.to_uppercase\(\)", r".vupper()", "str::to_uppercase is a function of the text (upper_of)"),
     "as_str_of": (r"\b(\w+)\.as_str\(\)", r"vsd::as_str_of(&\1)", "String::as_str is the same text as a slice"),
     "dir_to_string": (r"\bdir\.to_string\(\)", r"vstr::to_string_of(dir)", "&str::to_string() is a String with the same text"),
+    "float_cast_i64": (r"\b(\w+) as i64\b", r"vtm::f64_as_i64(\1)", "`x as i64` on a double is the named function f2i (the verifier leaves float casts unspecified)"),
+    "int_cast_f64": (r"\((\w+) as f64\)", r"vtm::i64_as_f64(\1)", "`(n as f64)` on a 64-bit integer is the named function i2f"),
+    "float_cast_u32": (r"= \((.*)\) as u32;", r"= vtm::f64_as_u32(\1);", "`(e) as u32` on a double is the named function f2u"),
+    "time_write_format": (r"write!\(text, \"\{\}\", datetime\.format\(&format\)\)\.is_ok\(\)", r"vtm::write_formatted(&mut text, &datetime, &format)", "write!(text, \"{}\", datetime.format(&format)).is_ok(): the text of the instant in that format is appended to the (empty) string and the answer is true, or the format is invalid and the answer is false (chrono reports a bad format as fmt::Error)"),
+    "unix_epoch_const": (r"\b(NaiveDateTime|DateTime)::UNIX_EPOCH\b", r"\1::unix_epoch()", "the associated constant UNIX_EPOCH of the chrono stand-in is written as a function call (an opaque type has no constant initialiser)"),
     "pub_crate": (r"\bpub\(crate\)\s+", r"pub ", "visibility is irrelevant in a single file"),
     "deref_clone": (
         r"(\w+)\.deref\(\)\.clone\(\)", r"vrc::deref_clone(&\1)", "Rc<T>::deref().clone() clones the pointee"),
